@@ -34,12 +34,12 @@ type c18Case struct {
 
 var c18Variants = []string{"own-alone", "own-then-others", "others-then-own", "own-in-second-line", "own-with-comment", "own-other-version", "own-lowercase-name-is-other",
 	"same-name-other-instance", "own-tag-as-prefix-of-longer-pseudonym", "others-only", "none", "own-in-middle-of-line",
-	"empty-member-then-own", "leading-comma-then-own", "comment-with-comma-then-own", "empty-line-then-own"}
+	"empty-member-then-own", "leading-comma-then-own", "comment-with-comma-then-own", "empty-line-then-own", "own-between-two-comments"}
 
 func genC18(t *tape.Tape, tier string) any {
 	c := &c18Case{}
 	c.Topology = []string{"single", "self-loop", "two-loop"}[t.Pick(6, 2, 2)]
-	c.NameA = []string{"forwarder", "fwd-a", "p"}[t.Pick(3, 1, 1)]
+	c.NameA = []string{"forwarder", "fwd-a", "p", "Edge-EU-1", "Forwarder"}[t.Pick(3, 1, 1, 1, 1)]
 	c.NameB = c.NameA
 	if t.Chance(1, 2) {
 		c.NameB = "fwd-b"
@@ -210,6 +210,8 @@ func runC18(env *core.Env, ci any) {
 			via = []string{"1.0 alpha (cache, eu-west), " + ownElem}
 		case "empty-line-then-own":
 			via = []string{"", ownElem}
+		case "own-between-two-comments": // what a loop through a commenting peer looks like at the second arrival
+			via = []string{"1.1 squid-edge (squid/5.7), " + ownElem + ", 1.1 squid-edge (squid/5.7)"}
 		case "same-name-other-instance":
 			via = []string{"1.1 " + c.NameA + "-0123456789abcdef0123"}
 		case "own-lowercase-name-is-other":
@@ -269,7 +271,7 @@ func runC18(env *core.Env, ci any) {
 		}
 		isLoop := map[string]bool{"own-alone": true, "own-then-others": true, "others-then-own": true, "own-in-second-line": true, "own-with-comment": true,
 			"own-other-version": true, "own-in-middle-of-line": true, "empty-member-then-own": true, "leading-comma-then-own": true,
-			"comment-with-comma-then-own": true, "empty-line-then-own": true}[c.Variant]
+			"comment-with-comma-then-own": true, "empty-line-then-own": true, "own-between-two-comments": true}[c.Variant]
 		arr := w.arrivalsFor("tk2z")
 		if second.err != nil {
 			env.Fail("loop-no-response", feature+"/"+c.Variant, "no response to the crafted request: %v", second.err)
